@@ -33,7 +33,14 @@ def elf_structs(le, cls):
 def impl_parse(con, data, pos):
     from elftools.common.utils import struct_parse
     st = io.BytesIO(data)
-    v = struct_parse(con, st, pos)
+    # both calling conventions of the library's own callers: an explicit offset, or "at the current position" after a
+    # seek (content-derived choice; the second is how expression, CFI and line-program operands are read — a seeded
+    # defect in the error path of the default-argument form was missed while only the first form was exercised)
+    if (len(data) + pos + sum(data[:4])) % 2:
+        st.seek(pos)
+        v = struct_parse(con, st)
+    else:
+        v = struct_parse(con, st, pos)
     return {'v': canon(v), 'pos': st.tell()}
 
 
